@@ -436,13 +436,17 @@ fn base_ts(rng: &mut Rng) -> i64 {
     }
 }
 
+/// (count_per_period, period in s): count != period in 13 of 16, emission intervals (period / count) from
+/// 0.1 s to 60 s, on both sides of one second, several of them not a whole number of nanoseconds
+pub const RATES: [(i64, i64); 16] = [(7, 3), (120, 60), (1, 5), (3, 1), (2, 1), (10, 1), (3, 2), (5, 2), (1, 2), (1, 10), (3, 10), (2, 100), (60, 3600), (1, 1), (2, 2), (60, 60)];
+
 fn gen_programs(rng: &mut Rng, nclients: usize, nreq: usize, invalid_pct: u64) -> Vec<Vec<Req>> {
     let base = base_ts(rng);
     let keys = ["a", "b", "é"];
     let nkeys = rng.range(1, 3) as usize;
     let b = rng.range(1, 3);
-    let c = rng.range(1, 3);
-    let p = rng.pick(&[1i64, 2, 10, 100]);
+    // the rate of the scenario: two times in three from RATES, else count 1..3 per 1 | 2 | 10 | 100 s
+    let (c, p) = if rng.chance(2, 3) { rng.pick(&RATES) } else { (rng.range(1, 3), rng.pick(&[1i64, 2, 10, 100])) };
     let mut t = base;
     let mode = rng.below(4); // 0 all equal, 1 increasing, 2 mixed, 3 non-monotone
     let mut progs = vec![vec![]; nclients];
@@ -451,10 +455,12 @@ fn gen_programs(rng: &mut Rng, nclients: usize, nreq: usize, invalid_pct: u64) -
             let ts = match mode {
                 0 => base,
                 1 => {
-                    t += rng.pick(&[0i64, 1, 500_000_000, 1_000_000_000, 2_000_000_000]);
+                    // steps below and above one second: a denied request then has to wait less than a second
+                    // (retry_after truncates to 0 s) as well as 2 s and more
+                    t += rng.pick(&[0i64, 1, 100_000_000, 250_000_000, 500_000_000, 900_000_000, 1_000_000_000, 1_500_000_000, 2_000_000_000, 7_000_000_000]);
                     t
                 }
-                2 => base + rng.pick(&[0i64, 0, 1_000_000_000, 3_000_000_000]) * (i as i64 + 1),
+                2 => base + rng.pick(&[0i64, 0, 400_000_000, 1_000_000_000, 2_500_000_000, 3_000_000_000]) * (i as i64 + 1),
                 _ => base + rng.range(0, 5_000_000_000),
             };
             let mut r = Req { key: keys[rng.below(nkeys as u64) as usize].to_string(), b, c, p, q: rng.pick(&[1i64, 1, 1, 1, 0, 2]), ts };
@@ -468,6 +474,12 @@ fn gen_programs(rng: &mut Rng, nclients: usize, nreq: usize, invalid_pct: u64) -
             }
             if rng.chance(1, 10) {
                 r.b = rng.range(1, 3);
+            }
+            if rng.chance(1, 6) {
+                // another rate on the same keys (each request carries its own parameters)
+                let (c2, p2) = rng.pick(&RATES);
+                r.c = c2;
+                r.p = p2;
             }
             let _ = ci;
             prog.push(r);
@@ -555,6 +567,22 @@ fn judge(sc: &Scenario, r: &RunResult, line: &str, out: &mut Out) {
     }
     out.add("procs", r.procs.len() as u64);
     out.add("cancels", r.cancels.len() as u64);
+    // what was exercised, per store kind
+    let sk = match sc.store {
+        StoreCfg::Periodic { .. } => "periodic",
+        StoreCfg::Prob { .. } => "prob",
+        StoreCfg::Adaptive { .. } => "adaptive",
+    };
+    for (ci, idx, resp) in &r.procs {
+        let rq = &programs[*ci][*idx];
+        if rq.c > 0 && rq.p > 0 {
+            out.bump(&format!("{sk}_requests_{}", if rq.c == rq.p { "count_eq_period" } else if rq.p < rq.c { "interval_below_1s" } else { "interval_above_1s" }));
+        }
+        if let Some(rest) = resp.strip_prefix("ok,0,") {
+            let retry: i64 = rest.rsplit(',').next().and_then(|x| x.parse().ok()).unwrap_or(-1);
+            out.bump(&format!("{sk}_denials_retry_{}", if retry == 0 { "0s" } else if retry == 1 { "1s" } else { "2s_or_more" }));
+        }
+    }
     if r.procs.iter().any(|p| p.2.starts_with("ok,0")) {
         out.bump("schedules_with_denials");
     }
@@ -630,9 +658,11 @@ pub fn run(seed: u64, n: usize, out: &mut Out) {
         (3, 2, 1, 0),
     ];
     for (nc, nr, cap, cb) in shapes {
-        for variant in 0..3 {
+        // variant 0 = the race shape on the periodic store; 1, 2, 3 = generated programs on the probabilistic,
+        // adaptive and periodic store
+        for variant in 0..4 {
             let store = match variant {
-                0 => StoreCfg::Periodic { interval_ns: 1_000_000_000 },
+                0 | 3 => StoreCfg::Periodic { interval_ns: 1_000_000_000 },
                 1 => StoreCfg::Prob { modulus: 2 },
                 _ => StoreCfg::Adaptive { min_ns: 1_000_000_000, max_ns: 300_000_000_000, max_ops: 2 },
             };
@@ -648,7 +678,15 @@ pub fn run(seed: u64, n: usize, out: &mut Out) {
                     kind: "race",
                 }
             } else {
-                Scenario { cap, store, programs: gen_programs(&mut rng, nc, nr, 10), probe: None, kind: "small" }
+                // (these few configurations are each run under thousands of schedules: take programs in which
+                // count_per_period != period for most requests)
+                let programs = loop {
+                    let p = gen_programs(&mut rng, nc, nr, 10);
+                    if p.iter().flatten().filter(|r| r.c != r.p).count() * 2 > nc * nr {
+                        break p;
+                    }
+                };
+                Scenario { cap, store, programs, probe: None, kind: "small" }
             };
             exhaustive(&sc, cb, limit, out);
         }
